@@ -48,6 +48,18 @@ def text(x):
     return x
 
 
+_T = [None]
+
+
+def stage(chk, name):
+    """Log the wall time of the stage that just ended (stderr only; never part of a verdict)."""
+    import time
+    now = time.time()
+    if _T[0] is not None:
+        core.log("[%s] stage %-10s %.1fs" % (chk.pid, name, now - _T[0]))
+    _T[0] = now
+
+
 def mc(chk, module, cfg, timeout=1500):
     """Exhaustive TLC run of a law module; a violated law is a broken specification = tool failure."""
     r = core.tlc(module, cfg, timeout=timeout)
@@ -108,12 +120,14 @@ def nontrivial(o):
 def run(pid, tier, replay):
     chk = core.Check(pid, "model_checking", tier)
     local_known(chk, ["C21"])
+    stage(chk, "start")
     binp = core.build("rules")
     if replay:
         return do_replay(chk, binp, replay)
     quick = chk.quick
     # One TLC run over the (rule, message) universe: checks the specification's own laws (MC_MatchSem: monotonicity,
     # namespace order, symmetry, scope of the deviations) and emits every pair as a case (spec -> impl).
+    stage(chk, "build")
     cases = chk.path("cases.ndjson")
     g, n = core.tlc_generate("mc/MC_MatchSem.tla", "mc/MC_MatchSem_gen_%s.cfg" % ("quick" if quick else "thorough"),
                              cases, timeout=3000)
@@ -121,6 +135,7 @@ def run(pid, tier, replay):
         raise core.ToolError("MC_MatchSem emitted no case")
     chk.add_tlc(g)
     chk.add("mc_states", g.distinct)
+    stage(chk, "tlc-gen")
     obs = chk.path("obs.ndjson")
     core.run_bin(binp, ["match-obs", cases, obs])
     if sum(1 for _ in open(obs)) != n:
@@ -132,7 +147,9 @@ def run(pid, tier, replay):
     with open(obs, "a") as f, open(robs) as g2:
         for line in g2:
             f.write(line)
+    stage(chk, "observe")
     out, lines = validate(chk, "MatchCheck", obs, shards=6 if quick else 14)
+    stage(chk, "tlc-check")
     classify(chk, out["MISMATCH"], lines)
     chk.add("enumerated_cases", n)
     chk.add("random_cases", len(lines) - n)
